@@ -445,10 +445,19 @@ pub fn run(run: &mut Run) {
         match view {
             View::Pci => {
                 // all 65 536 ids x pre-images {0000, ffff, a55a, walking}
-                run.sweep("set PCIMessageFormat.vendor_id", 65536 * 4, move |acc, i| {
+                run.sweep("set PCIMessageFormat.vendor_id", 65536 * 8, move |acc, i| {
                     let v = (i % 65536) as u32;
                     let bg = i / 65536;
-                    let raw = [background(bg, 0), background(bg, 1), 0, 0];
+                    // 4 backgrounds, then pre-images related to the value: itself, byte-swapped, complemented, +1
+                    let v16 = v as u16;
+                    let rel = |x: u16| [(x >> 8) as u8, x as u8, 0, 0];
+                    let raw = match bg {
+                        0..=3 => [background(bg, 0), background(bg, 1), 0, 0],
+                        4 => rel(v16),
+                        5 => rel(v16.swap_bytes()),
+                        6 => rel(!v16),
+                        _ => rel(v16.wrapping_add(1)),
+                    };
                     acc.evals += 1;
                     acc.trans += 1;
                     acc.validated += 1;
@@ -460,12 +469,15 @@ pub fn run(run: &mut Run) {
                 });
             }
             View::Iana => {
-                // lanes(u32) x 4 backgrounds of the value, x 3 pre-images; plus both 16-bit halves fully
+                // lanes(u32) x 4 backgrounds of the value, plus both 16-bit halves fully; x 9 pre-images:
+                // 3 backgrounds and 6 buffers *related to the value being written* (its own wire image,
+                // byte-reversed, half-swapped, complemented, rotated, off by one) -- a setter that skips
+                // the store when it thinks nothing changes only errs on such pairs
                 let lanes = 256 * 4 * 4;
                 let halves = 65536 * 2 * 2;
-                run.sweep("set IANAMessageFormat.vendor_id", (lanes + halves) * 3, move |acc, i| {
-                    let pre = i % 3;
-                    let j = i / 3;
+                run.sweep("set IANAMessageFormat.vendor_id", (lanes + halves) * 9, move |acc, i| {
+                    let pre = i % 9;
+                    let j = i / 9;
                     let v: u32 = if j < lanes {
                         let mut ix = crate::engine::Ix(j);
                         let val = ix.take(256) as u8;
@@ -484,7 +496,15 @@ pub fn run(run: &mut Run) {
                         let other = if ix.take(2) == 0 { 0x0000u32 } else { 0xFFFF };
                         if which == 0 { (h << 16) | other } else { (other << 16) | h }
                     };
-                    let raw = [background(pre, 0), background(pre, 1), background(pre, 2), background(pre, 3)];
+                    let raw = match pre {
+                        0..=2 => [background(pre, 0), background(pre, 1), background(pre, 2), background(pre, 3)],
+                        3 => v.to_be_bytes(),
+                        4 => v.to_le_bytes(),
+                        5 => v.rotate_left(16).to_be_bytes(),
+                        6 => (!v).to_be_bytes(),
+                        7 => v.rotate_left(8).to_be_bytes(),
+                        _ => v.wrapping_add(1).to_be_bytes(),
+                    };
                     acc.evals += 1;
                     acc.trans += 1;
                     acc.validated += 1;
